@@ -105,9 +105,15 @@ def program_ops(wiring: str) -> List[str]:
         "lcd.clear()", "lcd.progress(0, 25)", 'lcd.progress(1, 50, max_value=100, width=10, label="Load")', 'lcd.progress(0, 7, max_value=7, style="hash")', 'lcd.progress(1, 1, max_value=3, width=6, style="dot", label="p")',
         "lcd.glyph(0, [0, 2, 5, 8, 8, 5, 2, 0])", "lcd.glyph(7, [31, 63, 255, 0, 1, 2, 3, 4])", "lcd.display(False)", "lcd.display(True)", "lcd.backlight(False)", "lcd.backlight(True)",
     ]
+    # the same power commands with run-time arguments (flag0 is False, flag1 True, lvl 100 at run time)
+    ops += ["lcd.display(flag0)", "lcd.display(flag1)", "lcd.backlight(flag0)", "lcd.backlight(flag1)", "lcd.display(lvl > 500)", "lcd.backlight(not flag0)"]
     if wiring == "parallel":
-        ops += ["lcd.brightness(0)", "lcd.brightness(40)", "lcd.brightness(255)"]
+        ops += ["lcd.brightness(0)", "lcd.brightness(40)", "lcd.brightness(255)", "lcd.brightness(lvl)", "lcd.brightness(lvl * 2)"]
     return ops
+
+
+RT_HEAD = ['flag0 = analog_read("A0") > 5', 'flag1 = analog_read("A1") > 5', 'lvl = analog_read("A2")']
+RT_INPUTS = {"A0": [0], "A1": [9], "A2": [100]}
 
 
 GLYPH_ROWS = [-33, -32, -11, -1, 0, 1, 21, 31, 32, 33, 64, 228, 255, 256, 1000, True, 4]
@@ -145,8 +151,8 @@ def gen_programs(tier: str) -> Iterator[dict]:
                 lines += [ops[i], f'mon.write("#{k}")']
             for placement in (("setup", "loop") if len(seq) == 1 else ("setup",)):
                 d = decl(wiring, cols, rows, backlight=True)
-                src = common.script([d] + lines, prologue=PRO) if placement == "setup" else common.script([d], lines, prologue=PRO)
-                yield {"id": f"O:{wiring}:{placement}:{seq}", "space": "O", "src": src, "runs": [{"passes": 0 if placement == "setup" else 2}], "geom": [cols, rows]}
+                src = common.script(RT_HEAD + [d] + lines, prologue=PRO) if placement == "setup" else common.script(RT_HEAD + [d], lines, prologue=PRO)
+                yield {"id": f"O:{wiring}:{placement}:{seq}", "space": "O", "src": src, "runs": [{"passes": 0 if placement == "setup" else 2, "ar": RT_INPUTS}], "geom": [cols, rows]}
 
 
 def gen_two_lcds(tier: str) -> Iterator[dict]:
@@ -191,6 +197,24 @@ def gen_progress(tier: str) -> Iterator[dict]:
                     ch = tuples[i : i + 3000]
                     runs.append({"passes": len(ch), "lcdquiet": 1, "maxev": 2000000, "ar": {"A0": [t[0] + 10 for t in ch], "A1": [t[1] for t in ch], "A2": [t[2] for t in ch]}, "tuples": ch})
                 yield {"id": f"G:{cols}:{label}:{use_width}", "space": "G", "src": progress_script(cols, label, use_width), "runs": runs, "geom": [cols, 2], "label": label, "use_width": use_width}
+
+
+def gen_progress_divisible(tier: str) -> Iterator[dict]:
+    """Every divisible triple (value * width is a multiple of max_value) for bar widths 1..40 and max_value = width,
+    2, 3 and 5 times the width: both sides must fill exactly value * width / max_value cells."""
+    for cols in (40, 24):
+        tuples = []
+        for w in range(1, cols + 1):
+            for mult in (1, 2, 3, 5):
+                m = w * mult
+                for v in range(0, m + 1):
+                    if (v * w) % m == 0:
+                        tuples.append((v, m, w))
+        runs = []
+        for i in range(0, len(tuples), 3000):
+            ch = tuples[i : i + 3000]
+            runs.append({"passes": len(ch), "lcdquiet": 1, "maxev": 2000000, "ar": {"A0": [t[0] + 10 for t in ch], "A1": [t[1] for t in ch], "A2": [t[2] for t in ch]}, "tuples": ch})
+        yield {"id": f"G:div:{cols}", "space": "G", "src": progress_script(cols, None, True), "runs": runs, "geom": [cols, 2], "label": None, "use_width": True}
 
 
 def progress_judge(case, run, dr, hr) -> Optional[str]:
@@ -282,6 +306,7 @@ def generate(tier: str, only=None) -> Iterator[dict]:
         yield from gen_glyphs(tier)
     if not only or "G" in only:
         yield from gen_progress(tier)
+        yield from gen_progress_divisible(tier)
     if not only or "H" in only:
         yield from gen_geometry(tier)
 
